@@ -11,7 +11,7 @@ import ast
 import itertools
 import re
 
-from sa.astutil import norm, walk_no_nested, guards_of, preceding_stmts
+from sa.astutil import norm, walk_no_nested, guards_of, preceding_stmts, always_exits
 from sa.c17_util import BV, Tok, TypeVal, Sim, Elaborator, ModelFault, Inst, Sig, signature, ClassRef
 from sa.errors import AnalysisError
 from sa.loader import Repo, Module
@@ -71,7 +71,10 @@ EXPLANATION = (
     "netlists (constants, signal types, structure) must coincide. "
     "R-C17-copy decides that every method of the CL queues and of the CL/FL/RTL adapters in send_recv_ifcs.py / "
     "get_give_ifcs.py that keeps an incoming message beyond the call (parameter or alias assigned to an attribute / element "
-    "of the component or inserted into one of its containers) keeps a private copy (clone_deepcopy / deepcopy / .clone()). "
+    "of the component or inserted into one of its containers) keeps a private copy (clone_deepcopy / deepcopy / .clone()), "
+    "and that the accepted copy helpers are deep: every return of pymtl3.extra.clone_deepcopy (and of any other repository "
+    "helper used) is x.clone() or a deep copy of the argument, `deepcopy` is bound to copy.deepcopy -- a shallow copy "
+    "(copy.copy, list(x), x[:]) or the argument itself is a finding. "
     "R-C17-connect interprets the isinstance(other, RecvIfcRTL) branch of GiveIfcRTL.connect (the adapter inserted by "
     "connect( q1.deq, q2.enq )) as construct-time code over a giver and a receiver interface and evaluates the netlist, And "
     "component included, for the four ready valuations: both enables = giver.rdy AND receiver.rdy, receiver.msg = giver.ret. "
@@ -1269,8 +1272,99 @@ def rule_history(repo):
 
 # ---------------------------------------------------------------------------
 # stored messages are private copies
-COPY_FUNCS = {'clone_deepcopy', 'deepcopy', 'copy.deepcopy', 'copy.copy'}
-COPY_METHODS = {'clone', '__deepcopy__', '__copy__', 'copy'}
+COPY_FUNCS = {'clone_deepcopy', 'deepcopy', 'copy.deepcopy'}      # what these names are bound to is checked by _copy_helpers
+COPY_METHODS = {'clone', '__deepcopy__'}
+CLONE_PY = 'pymtl3/extra/clone_deepcopy.py'
+_HELPER_PROBE = '''
+from copy import copy, deepcopy
+
+def clone_deepcopy( x ):
+  try:
+    return x.clone()
+  except AttributeError:
+    return copy( x )          # planted: shallow copy of a plain-Python message
+
+def keep( x ):
+  return x                    # planted: no copy at all
+
+def good( x ):
+  y = x
+  return deepcopy( y )
+'''
+
+
+def _deep_binding(repo, m, name, seen=()):
+    """is the name `name`, as bound in module m, a DEEP-copying function?  returns a list of
+    (Module, function, construct, message-or-None): one entry per return statement of every repository helper
+    involved; message None = this return yields a deep copy"""
+    if name == 'copy.deepcopy':
+        if m.imports.get('copy') == ('copy', None):
+            return []
+        return [(m, '<module>', 'copy.deepcopy', f"`copy` is not the standard copy module in {m.rel}")]
+    if name in m.imports and name not in m.functions:
+        dotted, orig = m.imports[name]
+        if dotted == 'copy':
+            return [] if orig == 'deepcopy' else [(m, '<module>', f"from copy import {orig} as {name}",
+                                                   f"`{name}` is bound to copy.{orig}, a shallow copy: nested mutable data of the "
+                                                   f"message stays shared with the caller")]
+    rr = repo.resolve(m, name)
+    if rr is None or not isinstance(rr[1], ast.FunctionDef):
+        return [(m, '<module>', f"copy helper {name}", f"`{name}` cannot be resolved to a copying function in {m.rel}")]
+    hm, fn = rr
+    if (hm.rel, fn.name) in seen:
+        return []
+    out = []
+    params = {a.arg for a in fn.args.args}
+    changed = True
+    while changed:            # plain aliases of the parameter
+        changed = False
+        for st in walk_no_nested(fn):
+            if isinstance(st, ast.Assign) and isinstance(st.value, ast.Name) and st.value.id in params:
+                for t in st.targets:
+                    if isinstance(t, ast.Name) and t.id not in params:
+                        params.add(t.id)
+                        changed = True
+    rets = [n for n in walk_no_nested(fn) if isinstance(n, ast.Return)]
+    if not always_exits(fn.body) or not rets:
+        out.append((hm, fn.name, 'fall-through', f"{fn.name} can end without returning a copy (returns None)"))
+    for ret in rets:
+        v = ret.value
+        cons = f"return {norm(v)}"
+        why = None
+        if isinstance(v, ast.Call) and isinstance(v.func, ast.Attribute) and v.func.attr in COPY_METHODS \
+                and isinstance(v.func.value, ast.Name) and v.func.value.id in params and not v.args:
+            pass
+        elif isinstance(v, ast.Call) and v.args and isinstance(v.args[0], ast.Name) and v.args[0].id in params \
+                and isinstance(v.func, (ast.Name, ast.Attribute)) and norm(v.func) not in ('list', 'dict', 'set', 'tuple', 'type'):
+            sub = _deep_binding(repo, hm, norm(v.func), seen + ((hm.rel, fn.name),))
+            bad = [x for x in sub if x[3]]
+            if bad:
+                why = f"`{norm(v.func)}` is not a deep copy: {bad[0][3]}"
+            out += [x for x in sub if not x[3] and x[1] != fn.name]
+        elif isinstance(v, ast.Name) and v.id in params:
+            why = "the argument itself is returned: no copy at all"
+        else:
+            why = "this is not x.clone() / a deep copy of the argument (a shallow copy such as copy(x), list(x), x[:], dict(x) " \
+                  "shares nested mutable data with the caller)"
+        out.append((hm, fn.name, cons, why and f"{fn.name}: {why}"))
+    return out
+
+
+def _copy_helpers(r, repo, mods):
+    """the copying functions accepted at the store sites really produce private (deep) copies"""
+    done = set()
+    for m in mods:
+        used = {norm(n.func) for n in ast.walk(m.tree) if isinstance(n, ast.Call) and norm(n.func) in COPY_FUNCS}
+        for name in sorted(used):
+            for hm, func, cons, msg in _deep_binding(repo, m, name):
+                key = (hm.rel, func, cons)
+                if key in done:
+                    continue
+                done.add(key)
+                if msg:
+                    r.bad(hm, func, cons, msg + " -- a stored message is then not a private copy", 0)
+                else:
+                    r.ok(hm, func, cons)
 STORE_METHODS = {'append', 'appendleft', 'insert', 'extend', 'extendleft', 'add', 'put', 'push'}
 _COPY_PROBE_SRC = '''
 class ProbeAdapter( Component ):
@@ -1376,8 +1470,19 @@ def rule_copy(repo):
     if [f.func for f in probe.findings] != ['ProbeAdapter.recv'] or len(probe.instances) != 2:
         raise AnalysisError(f"R-C17-copy: the embedded positive example was not judged as expected "
                             f"({[(i['function'], i['verdict']) for i in probe.instances]})")
-    for rel in (SRI, GGI, CLQ):
-        _copy_check(r, repo.mod(rel), None)
+    hp = RuleResult('probe', '')
+    pm = Module(repo, 'c17_embedded_copy_helper_probe_.py', _HELPER_PROBE + "\nclone_deepcopy(1); keep(1); good(1)\n")
+    for nm in ('clone_deepcopy', 'keep', 'good'):
+        for hm, func, cons, msg in _deep_binding(repo, pm, nm):
+            (hp.bad if msg else hp.ok)(hm, func, cons, *([msg] if msg else []))
+    if sorted(f.func + ':' + f.construct for f in hp.findings) != ['clone_deepcopy:return copy(x)', 'keep:return x'] \
+            or len(hp.instances) != 4:
+        raise AnalysisError(f"R-C17-copy: the embedded copy-helper example was not judged as expected "
+                            f"({[(i['function'], i['construct'], i['verdict']) for i in hp.instances]})")
+    mods = [repo.mod(rel) for rel in (SRI, GGI, CLQ)]
+    for m in mods:
+        _copy_check(r, m, None)
+    _copy_helpers(r, repo, mods)
     r.require_floor(5)
     return r
 
@@ -2031,6 +2136,12 @@ MUTANTS = [
     _m('adapter-recvfl2sendrtl-no-copy', SRI, "      greenlet.getcurrent().parent.switch(0)\n    s.entry = clone_deepcopy( msg )",
        "      greenlet.getcurrent().parent.switch(0)\n    s.entry = msg", 'R-C17-copy'),
     _m('adapter-recvcl2givefl-no-copy', GGI, "    s.entry = clone_deepcopy( msg )", "    s.entry = msg", 'R-C17-copy'),
+    dict(name='clone-deepcopy-falls-back-to-shallow', rule='R-C17-copy', edits=[
+        dict(file=CLONE_PY, old="from copy import deepcopy\n", new="from copy import copy\n", count=1),
+        dict(file=CLONE_PY, old="    return deepcopy(x)", new="    return copy(x)", count=1)]),
+    _m('clone-deepcopy-returns-argument', CLONE_PY, "    return deepcopy(x)", "    return x", 'R-C17-copy'),
+    _m('clone-deepcopy-deepcopy-aliased-to-copy', CLONE_PY, "from copy import deepcopy\n", "from copy import copy as deepcopy\n", 'R-C17-copy'),
+    _m('clone-deepcopy-list-copy', CLONE_PY, "    return deepcopy(x)", "    return list(x)", 'R-C17-copy'),
     _m('cl-pipe-enq-no-copy', CLQ, "s.queue.appendleft( clone_deepcopy( msg ) )", "s.queue.appendleft( msg )", 'R-C17-copy', 'first'),
     dict(name='cl-bypass-enq-no-copy', rule='R-C17-copy', edits=[
         dict(file=CLQ, old="  @non_blocking( lambda s: len( s.queue ) < s.queue.maxlen )\n  def enq( s, msg ):\n    s.queue.appendleft( clone_deepcopy( msg ) )\n\n"
@@ -2136,6 +2247,11 @@ EQUIV = [
     _m('adapter-and-inputs-swapped', GGI, "        m.in0, s.rdy,\n        m.in1, other.rdy,", "        m.in1, s.rdy,\n        m.in0, other.rdy,"),
     _m('adapter-send-branches-swapped', SRI, "      if s.entry is None:\n        s.send.en  @= b1( 0 )\n      else:\n        s.send.en  @= b1( s.send.rdy )\n        s.send.msg @= s.entry",
        "      if s.entry is not None:\n        s.send.en  @= b1( s.send.rdy )\n        s.send.msg @= s.entry\n      else:\n        s.send.en  @= b1( 0 )"),
+    dict(name='clone-deepcopy-via-copy-module', edits=[
+        dict(file=CLONE_PY, old="from copy import deepcopy\n", new="import copy\n", count=1),
+        dict(file=CLONE_PY, old="    return deepcopy(x)", new="    return copy.deepcopy(x)", count=1)]),
+    _m('clone-deepcopy-helper-local', CLONE_PY, "  except AttributeError:\n    return deepcopy(x)",
+       "  except AttributeError:\n    obj = x\n    return deepcopy(obj)"),
     _m('adapter-copy-via-clone-method', SRI, "s.entry = clone_deepcopy( msg )", "s.entry = msg.clone()", None, 'first'),
     dict(name='adapter-copy-via-deepcopy', edits=[
         dict(file=GGI, old="import greenlet\n", new="import greenlet\nfrom copy import deepcopy\n", count=1),
